@@ -12,7 +12,7 @@ import json
 
 from .. import grammar, model, observe, spec as specmod
 from ..kernel import call, exc_site
-from .c01 import tol_for
+from .c01 import model_tol, tol_for
 from .pool import FACTORS_ODD, FACTORS_POS, PoolScenario, hashes, snapshot_docs
 
 
@@ -107,7 +107,7 @@ class C04(PoolScenario):
             w.bump("probe_document_outside_grammar")
         if cover is not None:
             mod = model.model_doc(w.specs[k], [(w.records[i], wt) for i, wt in cover])
-            d = observe.doc_diff(ndoc, mod, tol_for(w.records, len(cover) + 4 * si + 8))
+            d = observe.doc_diff(ndoc, mod, model_tol(w, tol_for(w.records, len(cover) + 4 * si + 8)))
             w.bump("probe_document_vs_model")
             if d is not None:
                 raise self.violation(d[1], "toJson", "content:%s" % d[2],
